@@ -106,7 +106,8 @@ def coord_to_index(coord, coords, include_stop=False):
 
 
 def gen_coord_list(start, step, count):
-    return np.arange(start, start + step*count, step)
+    # Exactly count values: the length of arange(start, start + step*count, step) depends on float rounding
+    return start + step * np.arange(count)
 
 
 def bytes_to_double(bytes):
